@@ -51,13 +51,16 @@ func Stats(logFileName, dbFileName string, sc StatsConfig) error {
 		if parseErr != nil {
 			return true, parseErr
 		}
-		lastLogDate, err = time.Parse(sc.ReporterConfig.DateFormat, n.Header)
-		if err == nil {
-			// a flag, not the zero time: 0001/01/01 is a date a log may hold
-			if !haveFirstLogDate {
-				firstLogDate = lastLogDate
-				haveFirstLogDate = true
-			}
+		// a heading that is not a date is an error here as in every other command
+		logDate, dateErr := time.Parse(sc.ReporterConfig.DateFormat, n.Header)
+		if dateErr != nil {
+			return true, dateErr
+		}
+		lastLogDate = logDate
+		// a flag, not the zero time: 0001/01/01 is a date a log may hold
+		if !haveFirstLogDate {
+			firstLogDate = lastLogDate
+			haveFirstLogDate = true
 		}
 		countLog++
 		return false, nil
